@@ -31,7 +31,7 @@ CASE_TIMEOUT = {'quick': 120, 'thorough': 300}
 
 
 # appended to RULE in the evidence (vlib/runner.py)
-RULE_ADDENDUM = 'Added in round 5: 2-6 user time controls of random priority (0..6) at off-grid instants on links away from the tanks in 45 % of the cases.'
+RULE_ADDENDUM = 'Added in round 5: 2-6 user time controls of random priority (0..6) at off-grid instants on links away from the tanks in 45 % of the cases. Round 6: 20 % of the tanks carry overflow=True (not modelled by the WNTRSimulator).'
 
 def n_cases(tier):
     return 200 if tier == 'quick' else 3000
